@@ -436,6 +436,53 @@ def check_solver_params_unit(ctx, rng):
             ctx.disagreement("C05.model.solverParams", f"model {md} vs implementation {got}", rep)
 
 
+def check_register_unit(ctx, rng):
+    """Solver.add_structure (parameter part) against the Lean `registerDefaults`, and the round trip
+    register -> hand down: with no explicit value every parameter of the component gets its own default back"""
+    L = impl.lk()
+    names = ["A", "B", "C", "D", "R", "w", "pol"]
+    child = {n: rng.randint(1, 99) for n in names if rng.random() < 0.6}
+    if not child:
+        child = {"A": 1}
+    olds = rng.sample(["A", "B", "C", "D", "E"], rng.randint(0, 3))
+    kind = rng.choice(["fresh", "perm", "mixed"])
+    if kind == "fresh":
+        news = [o + "_n" for o in olds]
+    elif kind == "perm":
+        news = olds[1:] + olds[:1]
+    else:
+        news = rng.sample(["A", "B", "C", "D", "E", "F", "G"], len(olds))
+    table = {o: n for o, n in zip(olds, news) if o != n}          # Structure(param_mapping={old: new})
+    rep = {"kind": "register-unit", "child": child, "table": table}
+    merge = any(n in child and n not in table for n in table.values())
+    ctx.case(rep, tags=["stream:register-unit", f"table:{kind}", "merge" if merge else "injective"])
+    try:
+        m = L.Model(pin_dic={L.Pin("a"): 0, L.Pin("b"): 1}, param_dic=dict(child))
+        st = L.Structure(model=m, param_mapping=dict(table))
+        sol = L.Solver()
+        sol.add_structure(st)
+        got = [(k, v) for k, v in sol.default_params.items() if k != "wl"]
+        st.update_params(dict(sol.default_params))
+        down = dict(st.param_dic)
+    except Exception as e:  # noqa
+        ctx.violation(f"C05:register-raised-{type(e).__name__}", f"add_structure / update_params raised {type(e).__name__}: {str(e)[:70]}", rep)
+        return
+    ans = ctx.driver.ask({"op": "register", "table": [[n, o] for o, n in table.items()], "parent": [], "child": [[k, str(v)] for k, v in child.items()]})
+    if "dict" not in ans:
+        ctx.disagreement("C05.model.registerDefaults", f"model: {ans}", rep)
+        return
+    md = [(k, int(v)) for k, v in ans["dict"]]
+    if md != got:
+        ctx.disagreement("C05.model.registerDefaults", f"Lean registerDefaults {md} vs Solver.default_params {got}", rep)
+    if not merge:
+        for k, v in child.items():
+            if k in ("R", "w", "pol"):
+                continue
+            if down.get(k) != v:
+                ctx.violation("C05:defaults-roundtrip", f"component default {k}={v} registered through {table} comes back as {down.get(k)} when the parent's defaults are handed down", rep)
+                return
+
+
 def run(ctx):
     rng = ctx.subrng("c05")
     n = ctx.budget(400, 5000)
@@ -474,6 +521,7 @@ def run(ctx):
         check_add_param_sibling(ctx, rng, Values(rng))
     for i in range(ctx.budget(100, 1000)):
         check_solver_params_unit(ctx, rng)
+        check_register_unit(ctx, rng)
 
 
 def replay(ctx, data):
